@@ -157,20 +157,25 @@ func c06Catalogue(ctx *core.Ctx) ([]FaultCase, error) {
 						continue
 					}
 					for vi, v := range vals {
-						if expensive && !ctx.Thorough() && (vi+ti+ii)%3 != int(ctx.Seed)%3 {
-							continue // expensive protocols, quick tier: a rotating third of the values
+						if expensive && !ctx.Thorough() && (vi+ti+ii)%6 != int(ctx.Seed)%6 {
+							continue // expensive protocols (4-7 s per run), quick tier: a rotating sixth of the values
 						}
-						if !expensive && sc.Proto == pump.EcSigning && !ctx.Thorough() && (vi+ti+ii)%2 != int(ctx.Seed)%2 {
-							continue // ECDSA signing (about 1 s per run), quick tier: a rotating half
+						if !expensive && sc.Proto == pump.EcSigning && !ctx.Thorough() && (vi+ti+ii)%3 != int(ctx.Seed)%3 {
+							continue // ECDSA signing (about 1 s per run), quick tier: a rotating third
 						}
 						cases = append(cases, FaultCase{Sc: sc, Dev: dev, Type: ws.Type, To: to, AfterAbort: true,
 							Spec: tamper.Spec{Field: f.Name, Index: idx, Kind: "set", Hex: hex.EncodeToString(v.b) + "#" + v.name}})
 					}
 					// parity / low bit flip
-					cases = append(cases, FaultCase{Sc: sc, Dev: dev, Type: ws.Type, To: to, AfterAbort: true, Spec: tamper.Spec{Field: f.Name, Index: idx, Kind: "flipbit"}})
+					if !expensive || ctx.Thorough() || (ti+ii)%2 == int(ctx.Seed)%2 {
+						cases = append(cases, FaultCase{Sc: sc, Dev: dev, Type: ws.Type, To: to, AfterAbort: true, Spec: tamper.Spec{Field: f.Name, Index: idx, Kind: "flipbit"}})
+					}
 				}
 				if f.IsList {
-					for _, k := range []string{"remove", "append", "clearlist"} {
+					for ki, k := range []string{"remove", "append", "clearlist"} {
+						if expensive && !ctx.Thorough() && (ki+ti)%3 != int(ctx.Seed)%3 {
+							continue
+						}
 						cases = append(cases, FaultCase{Sc: sc, Dev: dev, Type: ws.Type, To: to, AfterAbort: true, Spec: tamper.Spec{Field: f.Name, Index: 0, Kind: k}})
 					}
 				}
@@ -183,8 +188,10 @@ func c06Catalogue(ctx *core.Ctx) ([]FaultCase, error) {
 			for k := 0; k < nraw; k++ {
 				cases = append(cases, FaultCase{Sc: sc, Dev: dev, Type: ws.Type, To: to, AfterAbort: true, RawWire: "mutate:" + fmt.Sprint(rng.Int63())})
 			}
-			cases = append(cases, FaultCase{Sc: sc, Dev: dev, Type: ws.Type, To: to, AfterAbort: true, RawWire: "empty"})
-			cases = append(cases, FaultCase{Sc: sc, Dev: dev, Type: ws.Type, To: to, AfterAbort: true, RawWire: "othertype"})
+			if !expensive || ctx.Thorough() || ti%2 == int(ctx.Seed)%2 {
+				cases = append(cases, FaultCase{Sc: sc, Dev: dev, Type: ws.Type, To: to, AfterAbort: true, RawWire: "empty"})
+				cases = append(cases, FaultCase{Sc: sc, Dev: dev, Type: ws.Type, To: to, AfterAbort: true, RawWire: "othertype"})
+			}
 			// (3) sender indices
 			for _, idx := range []int{-1, sc.N + sc.NewN, sc.N + sc.NewN + 7, 1 << 30} {
 				if expensive && !ctx.Thorough() && idx != -1 && idx != sc.N+sc.NewN {
@@ -200,8 +207,11 @@ func c06Catalogue(ctx *core.Ctx) ([]FaultCase, error) {
 			}
 			snd := sendersOf(sc, cp.cType)
 			dev := snd[int(ctx.Seed)%len(snd)]
-			for _, craft := range []string{"offcurve", "identity", "torsion", "short", "long", "nothing", "zeros", "huge"} {
+			for ci, craft := range []string{"offcurve", "identity", "torsion", "short", "long", "nothing", "zeros", "huge"} {
 				if craft == "torsion" && sc.Proto.IsEcdsa() {
+					continue
+				}
+				if expensive && !ctx.Thorough() && ci%2 != int(ctx.Seed)%2 {
 					continue
 				}
 				cases = append(cases, FaultCase{Sc: sc, Dev: dev, Type: cp.cType, AfterAbort: true,
